@@ -402,7 +402,12 @@ fn gen_case(rng: &mut Rng, ctx: &Ctx, pools: &Pools) -> CliCase {
     if ext == "scss" && rng.chance(0.06) {
         post.push_str(&format!("\n@for $i from 1 through {} {{ .big-#{{$i}} {{ padding: $i * 1px; margin: 0 auto; }} }}\n", rng.range(1500, 4000)));
     }
-    let text = format!("{}{}{}", pre, body, post);
+    let mut text = format!("{}{}{}", pre, body, post);
+    // an empty or whitespace-only stylesheet: the library returns the empty string, and that
+    // is what must end up in the output (a stale output file may not survive)
+    if rng.chance(0.04) {
+        text = (*rng.pick(&["", "\n", "  \n\n", "// only a comment\n"])).to_string();
+    }
     let compressed = rng.chance(0.5);
     let quiet = rng.chance(0.35);
     let no_unicode = rng.chance(0.4);
